@@ -114,6 +114,22 @@ theorem midstate_v0_absent (H : Bytes → Bytes) (tx : Tx) (fetch : OutPoint →
     (newTxSigHashes H tx fetch).hashOutputsV0 = zero32 := by
   simp [newTxSigHashes, h]
 
+/-- `sigHashes == nil` is allowed exactly where the digest never reads a midstate
+(ANYONECANPAY with NONE or SINGLE): there the result equals the result with ANY midstate. -/
+theorem nil_midstate_unread_wit (H : Bytes → Bytes) (sub : Bytes) (sh : SigHashes) (ht : UInt32)
+    (tx : Tx) (idx : Nat) (amt : UInt64)
+    (h : ¬ ((ht &&& 0x80) = 0 ∨ ((ht &&& 0x1f) ≠ 3 ∧ (ht &&& 0x1f) ≠ 2))) :
+    calcWitnessSignatureHashRawNil H sub ht tx idx amt =
+      calcWitnessSignatureHashRaw H sub sh ht tx idx amt :=
+  Lemmas.wit_nil_unread H sub sh ht tx idx amt h
+
+theorem nil_midstate_unread_tap (H : Bytes → Bytes) (sh : SigHashes) (ht : UInt32) (tx : Tx)
+    (idx : Nat) (fetch : OutPoint → TxOut) (o : TaprootSigHashOptions)
+    (h : ¬ ((ht &&& 0x80) ≠ 0x80 ∨ ((ht &&& 3) ≠ 3 ∧ (ht &&& 3) ≠ 2))) :
+    calcTaprootSignatureHashRawNil H ht tx idx fetch o =
+      calcTaprootSignatureHashRaw H sh ht tx idx fetch o :=
+  Lemmas.tap_nil_unread H sh ht tx idx fetch o h
+
 /-- HashCache is a map: what `AddSigHashes` stored is what `GetSigHashes` returns, other
 transactions are unaffected, `PurgeSigHashes` removes. -/
 theorem hashcache_laws (c : HashCache) (txid t : Bytes) (s : SigHashes) :
